@@ -150,6 +150,12 @@ func TestWorker(t *testing.T) {
 				}
 			}
 		}
+		if res.Digest == "" && wantEventDigest {
+			res.Digest = res.Hash
+			if res.Violation != nil {
+				res.Digest += "!" + res.Violation.Class
+			}
+		}
 		if res.Digest != "" {
 			if out.Digests == nil {
 				out.Digests = map[string]string{}
